@@ -167,7 +167,7 @@ def run():
 
     # directed: every ordered pair of transform kinds adjacent (the split table's subject), small instances
     cases = []
-    g = P.Gen(rng, max_steps=5)
+    g = P.Gen(rng, max_steps=5, distinct_n=0.35, rsub=0.3)
     for a in E.KINDS:
         for b in E.KINDS:
             positional = "take" in (a, b)
@@ -181,7 +181,7 @@ def run():
 
     # directed families the split/sort machinery is sensitive to (see DESIGN.md 0.4)
     cases = []
-    g = P.Gen(rng, max_steps=7)
+    g = P.Gen(rng, max_steps=7, distinct_n=0.35, rsub=0.3)
     for _ in range(ck.n(30, 150) * (3 if broken else 1)):      # join on all columns keeping left columns (set-operation rewrite)
         pg = g.program(n_steps=1 + rng.randint(0, 2), force=["alljoin"])
         cases.append((pg, [P.gen_instance(rng, max_rows=6, min_rows=3)]))
@@ -193,12 +193,25 @@ def run():
     for _ in range(ck.n(24, 120) * (3 if broken else 1)):      # sort | join | take | select | group
         pg = g.program(n_steps=5 + rng.randint(0, 1), force=["sort", "join", "take", "select", rng.choice(["group_agg", "aggregate", "distinct"])])
         cases.append((pg, [P.gen_instance(rng, max_rows=7, min_rows=5)]))
+    for _ in range(ck.n(24, 120) * (3 if broken else 1)):      # the join's argument is a sorted pipeline of its own; the outer take lands in a CTE
+        g.rsub = 1.0
+        pg = g.program(n_steps=4 + rng.randint(0, 1), force=["sort", "join", "take", rng.choice(["filter", "derive", "group_agg", "select"])])
+        g.rsub = 0.3
+        cases.append((pg, [P.gen_instance(rng, max_rows=7, min_rows=5)]))
+    for _ in range(ck.n(16, 80) * (3 if broken else 1)):       # whole-row groups taking 1 or n >= 2 rows, on data with duplicate rows
+        g.distinct_n = 0.7
+        pg = g.program(n_steps=1 + rng.randint(0, 2), force=["distinct"])
+        g.distinct_n = 0.35
+        inst = P.gen_instance(rng, max_rows=7, min_rows=5)
+        top = max(x[0] for x in inst["t"])
+        inst["t"] = inst["t"] + [[top + 1 + i] + list(r[1:]) for i, r in enumerate(inst["t"][:3])]   # same values, fresh ids
+        cases.append((pg, [inst]))
     recs3 = E.run_stream(ck, "directed", cases, targets, judge_rows, classify)
     segments_stream(ck, recs3)
 
     # random programs
     cases = []
-    g = P.Gen(rng, max_steps=7)
+    g = P.Gen(rng, max_steps=7, distinct_n=0.35, rsub=0.3)
     for _ in range(ck.n(250, 4000) * (3 if broken else 1)):
         pg = g.program()
         cases.append((pg, [P.gen_instance(rng, max_rows=6, min_rows=2), P.gen_instance(rng, max_rows=2)]))
